@@ -20,10 +20,10 @@ use std::sync::{Arc, Mutex};
 pub fn def() -> PropDef {
     PropDef {
         id: "C16",
-        rule: "1 thread x every script of 3..4 steps (thorough 5); 2 threads x scripts of <=3 steps and 3 threads x scripts of <=2 steps over {fail with one of nine messages through seven table entries (raw_name_from_str and rename fail in two ways each; set_raw_name, delete and set_name fail inside an iteration callback), succeed, read description through the thread's last CErr*, look again at the description text retrieved earlier}; every interleaving of the steps (step-level points, unbounded) and, with the library's yield points around the error store enabled, every interleaving with at most 2 preemptions; the same step-level exploration with all threads working on ONE packet handed from thread to thread; each execution runs on real OS threads under a baton scheduler and is compared with the per-thread expectation; distinct classes = (threads, script shapes, own or shared packet, whether a foreign failure lies between a failure and its read)",
+        rule: "1 thread x every script of 3..4 steps (thorough 5); 2 threads x scripts of <=2 steps (thorough: 3 steps against <=2) and 3 threads x scripts of <=2 steps over {fail with one of nine messages through seven table entries (raw_name_from_str and rename fail in two ways each; set_raw_name, delete and set_name fail inside an iteration callback), succeed, read description through the thread's last CErr*, look again at the description text retrieved earlier}; every interleaving of the steps (step-level points, unbounded) and, with the library's yield points around the error store enabled, every interleaving with at most 2 preemptions; the same step-level exploration with all threads working on ONE packet handed from thread to thread; each execution runs on real OS threads under a baton scheduler and is compared with the per-thread expectation; distinct classes = (threads, script shapes, own or shared packet, whether a foreign failure lies between a failure and its read)",
         run,
         replay,
-        bounds: |t| json!({"threads": [2, 3], "steps_2_threads": t.pick(3, 4), "steps_3_threads": 2, "preemption_bound_with_library_points": t.pick(2, 3), "max_executions_per_tuple": 20000}),
+        bounds: |t| json!({"threads": [2, 3], "steps_2_threads": t.pick(2, 3), "steps_3_threads": 2, "preemption_bound_with_library_points": t.pick(2, 3), "max_executions_per_tuple": 20000}),
         assumptions: &["scheduling granularity = table calls plus the hook points inside throw_err; data races below that granularity are out of scope (no instrumented std offline)"],
         budget_s: |t| t.pick(55, 900),
         exhaustive: true,
@@ -406,8 +406,7 @@ fn run(ctx: &mut Ctx, rep: &mut Report) {
     if exp.iter().collect::<std::collections::BTreeSet<_>>().len() < 8 {
         rep.vacuity.push(format!("the nine failing calls produce fewer than eight distinct messages: {:?}", exp));
     }
-    let n2 = ctx.tier.pick(2, 3);
-    let s2 = scripts_upto(n2);
+    let s2 = scripts_upto(2);
     let mut gi = 0u64;
     // 2 threads, step-level points: all interleavings
     for a in &s2 {
@@ -478,6 +477,19 @@ fn run(ctx: &mut Ctx, rep: &mut Report) {
                     continue;
                 }
                 explore_tuple(ctx, rep, &[a.clone(), b.clone(), c.clone()], false, true, 99, &exp);
+            }
+        }
+    }
+    // thorough: every 3-step script against every script of up to 2 steps (threads are symmetric, so one order)
+    if ctx.tier == Tier::Thorough {
+        let s3len: Vec<Vec<Step>> = scripts_upto(3).into_iter().filter(|s| s.len() == 3).collect();
+        for a in &s3len {
+            for b in &s2 {
+                gi += 1;
+                if !ctx.mine(gi) || ctx.timed_out() {
+                    continue;
+                }
+                explore_tuple(ctx, rep, &[a.clone(), b.clone()], false, false, 99, &exp);
             }
         }
     }
